@@ -43,6 +43,12 @@ func applyFnOp(c *calculator.ExpressionCalculator, op Ev) {
 			c.DefaultFunctions().Add(&c05fn{toStr(op["name"]), toInt(op["k"])})
 		case "clearvars":
 			c.DefaultVariables().Clear()
+		case "rmvar":
+			c.DefaultVariables().RemoveByName(toStr(op["name"]))
+		case "addvar":
+			c.DefaultVariables().Add(variables.NewVariable(toStr(op["name"]), variants.VariantFromInteger(toInt(op["k"]))))
+		case "auto":
+			c.SetAutoVariables(toInt(op["k"]) != 0)
 		}
 	})
 }
@@ -233,6 +239,19 @@ func init() {
 			case "fnop":
 				op := Ev{"do": in["do"], "name": in["name"], "k": in["k"]}
 				e["do"], e["name"], e["k"] = in["do"], in["name"], in["k"]
+				if toStr(in["do"]) == "clear" {
+					// Clear() empties the variables: what a new calculator needs to get there is only the rest
+					guarded(func() { c05cur.calc.Clear() })
+					var keep []Ev
+					for _, o := range c05cur.fnops {
+						if d := toStr(o["do"]); d != "rmvar" && d != "addvar" && d != "clearvars" {
+							keep = append(keep, o)
+						}
+					}
+					c05cur.fnops, c05cur.text = keep, ""
+					e["obs"], e["fresh"] = []any{"done"}, []any{"done"}
+					return e
+				}
 				c05cur.fnops = append(c05cur.fnops, op)
 				applyFnOp(c05cur.calc, op)
 				e["obs"], e["fresh"] = []any{"done"}, []any{"done"}
@@ -252,13 +271,13 @@ func init() {
 					return []any{"ok", int(res.Type()), cl(res.String())}
 				}
 				fc := calculator.NewExpressionCalculator()
+				fc.SetAutoVariables(false) // as the long-lived one was created; "auto" steps change both
 				for _, op := range c05cur.fnops {
 					applyFnOp(fc, op)
 				}
 				guarded(func() { fc.SetExpression(text) })
-				guarded(func() { c05cur.calc.SetAutoVariables(true); c05cur.calc.SetExpression(text) })
+				guarded(func() { c05cur.calc.SetExpression(text) })
 				e["obs"], e["fresh"] = ev(c05cur.calc), ev(fc)
-				c05cur.calc.SetAutoVariables(false)
 			case "calculator":
 				c05cur.text = text
 				e["obs"] = obsCalc(c05cur.calc, text)
@@ -367,6 +386,22 @@ func genC05b(g *Gen) {
 			}
 			seg = append(seg, Ev{"op": "reuse", "what": "calculator", "input": cps("1 + '2'"), "first": false}, Ev{"op": "reuse", "what": "reeval", "input": []int{}, "first": false})
 			g.Run("operations manager replaced between evaluations", seg)
+		}
+	}
+	// the default variables changed (replaced by another object of the same name, removed, cleared) between evaluations
+	vop := func(do, name string, k int) Ev {
+		return Ev{"op": "reuse", "what": "fnop", "input": []int{}, "first": false, "do": do, "name": name, "k": k}
+	}
+	for _, ex := range []string{"x + 1", "x * y", "Max(x, y) + x", "x"} {
+		cev := Ev{"op": "reuse", "what": "calceval", "input": cps(ex), "first": false}
+		first := cloneEv(cev)
+		first["first"] = true
+		for _, mid := range [][]Ev{{vop("rmvar", "x", 0), vop("addvar", "x", 7)}, {vop("addvar", "X", 5)}, {vop("rmvar", "X", 0)}, {vop("addvar", "x", 3), vop("rmvar", "x", 0), vop("addvar", "x", 4)},
+			{vop("addvar", "x", 5), vop("auto", "", 0), vop("clear", "", 0)}, {vop("auto", "", 0), vop("addvar", "x", 5), vop("addvar", "y", 6), vop("clear", "", 0)}, {vop("clearvars", "", 0)}, {vop("addvar", "y", 2), vop("auto", "", 1)}} {
+			seg := []Ev{first, vop("addvar", "x", 21), cloneEv(cev)}
+			seg = append(seg, mid...)
+			seg = append(seg, cloneEv(cev), vop("addvar", "x", 1), cloneEv(cev))
+			g.Run("default variables changed between evaluations", seg)
 		}
 	}
 	// the calculator's default functions changed between evaluations
